@@ -260,7 +260,7 @@ func checkProperty(c *Ctx, p *Property, tier string, seed int, known []KnownFind
 		case Violated, Undecided:
 			matched := false
 			for _, k := range known {
-				if k.Property == p.ID && k.Status == "known" && k.Key == o.Key {
+				if k.Property == p.ID && k.Status == "known" && k.matches(o.Key) {
 					matched = true
 					fmt.Printf("KNOWN-FINDING: property=%s %s [%s at %s]\n", p.ID, k.What, o.Key, o.Pos)
 					knownHit = append(knownHit, o.Key)
